@@ -116,6 +116,13 @@ def apply_fault(data, f):
             return data
         v = (int.from_bytes(data[at : at + 4], "big") + f["delta"]) & 0xFFFFFFFF
         return data[:at] + v.to_bytes(4, "big") + data[at + 4 :]
+    if k == "seq":
+        # a composite fault: explicit sub-faults applied in order
+        for g in f["ops"]:
+            data = apply_fault(data, g)
+        return data
+    if k == "replace":
+        return data[: f["at"]] + bytes.fromhex(f["hex"]) + data[f["at"] + f["n"] :]
     if k == "reuint":
         # replace the exp-Golomb coded field occupying bits [bit, end) by the
         # code for ``val``.  Everything up to the next byte-alignment point
@@ -281,7 +288,7 @@ def interesting_value(rng, f):
 
 
 BYTE_KINDS = ["flip", "set", "burst", "zero", "trunc", "del", "dup", "ins", "swap", "append"]
-FIELD_KINDS = ["f_fixed", "f_uint", "f_bool", "f_coeff", "f_offsets", "f_picnum", "f_trunc_unit", "f_unit_drop", "f_unit_dup", "f_lenbyte"]
+FIELD_KINDS = ["f_fixed", "f_uint", "f_bool", "f_coeff", "f_offsets", "f_picnum", "f_trunc_unit", "f_unit_drop", "f_unit_dup", "f_lenbyte", "f_ld_resize"]
 ALL_KINDS = BYTE_KINDS + FIELD_KINDS
 
 
@@ -426,6 +433,47 @@ def gen_fault(rng, fmap, kind, data_len):
             return None
         u = rng.choice(fmap.units)
         return {"k": "del", "at": u["start"], "n": u["end"] - u["start"], "unit_code": u["code"]}, u["start"]
+    if kind == "f_ld_resize":
+        # re-size the slices of one low-delay picture consistently: new
+        # slice_bytes numerator/denominator and a slice data region of exactly
+        # the total size they imply (so that the stream stays framed) — reaches
+        # one-byte and zero-byte slices and slice lengths above the slice size
+        cands = []
+        for ui, u in enumerate(fmap.units):
+            if u["code"] == 0xC8:
+                fs = [f for f in fmap.fields if f.unit == ui]
+                num = [f for f in fs if f.name == "slice_bytes_numerator"]
+                den = [f for f in fs if f.name == "slice_bytes_denominator"]
+                sx = [f for f in fs if f.name == "slices_x"]
+                sy = [f for f in fs if f.name == "slices_y"]
+                q = [f for f in fs if f.name == "qindex"]
+                if num and den and sx and sy and q and q[0].start % 8 == 0:
+                    cands.append((ui, u, num[0], den[0], sx[0].value * sy[0].value, q[0].start // 8))
+        if not cands:
+            return None
+        ui, u, fnum, fden, nslices, data_start = rng.choice(cands)
+        new_den = rng.choice([1, 1, 2, 3, 7])
+        new_num = rng.choice([0, 1, 1, 2, new_den, new_den + 1, 2 * new_den, 3 * new_den + 1, 5 * new_den])
+        total = (nslices * new_num) // new_den
+        fill = rng.choice([0x00, 0x00, 0xFF, 0x55, rng.randrange(256)])
+        old_len = u["end"] - data_start
+        nf = [u["start"] + 5]
+        pf = [u["end"] + 9] if u["end"] + 13 <= fmap.nbytes else []
+        ops = [{"k": "replace", "at": data_start, "n": old_len, "hex": bytes([fill] * total).hex()}]
+        d = total - old_len
+        if d and rng.random() < 0.9:
+            ops.append({"k": "addfield", "at": nf[0], "delta": d})
+            for at in pf:
+                ops.append({"k": "addfield", "at": at + d, "delta": d})
+        region_end = data_start * 8
+        pad = 0
+        for (ab, pb) in fmap.aligns:
+            if ab == region_end:
+                pad = pb
+        common = {"k": "reuint", "region_end": region_end, "tail_pad": pad, "compensate": True, "next_fields": nf, "prev_fields": [at + d for at in pf]}
+        ops.append(dict(common, bit=fden.start, end=fden.end, val=new_den, field="slice_bytes_denominator"))
+        ops.append(dict(common, bit=fnum.start, end=fnum.end, val=new_num, field="slice_bytes_numerator"))
+        return {"k": "seq", "ops": ops, "num": new_num, "den": new_den}, u["start"]
     if kind == "f_unit_dup":
         if not fmap.units:
             return None
